@@ -3,6 +3,7 @@ import ast
 
 import sympy as sp
 
+from ..astutil import call_name, calls_in
 from ..report import RuleDef
 from ..src import AnalysisError
 from ..vg import (App, BoolT, Cmp, Const, DictV, Evaluator, ExtRef, Frame, Ite, Obj,
@@ -457,42 +458,107 @@ def r5(ctx):
             wrong = []
             m = ctx.model
             circ = m.cls('CirclePixelRegion')
+
+            def leaf(tag, inc):
+                return Obj('CirclePixelRegion', {'meta': DictV([{'include': Const(inc)}])}, tag, circ)
+
+            def comp(a, b, opname, inc, path):
+                return Obj('CompoundPixelRegion', {'region1': a, 'region2': b, 'operator': ExtRef('operator.' + opname),
+                                                   'meta': DictV([{'include': Const(inc)}] if inc is not None else [{}])}, path, ci)
+
+            def outside(tree):
+                """membership of a point far away from every leaf: (value, include flag) trees"""
+                if tree[0] == 'leaf':
+                    return 0
+                _, a, b, opname = tree[:4]
+                va = outside(a[0]) ^ (0 if a[1] else 1)
+                vb = outside(b[0]) ^ (0 if b[1] else 1)
+                return int(bool(getattr(_op, opname)(va, vb)))
+
+            def pad_fill(operand):
+                _, ev2, boxes2 = _compound_setup(ctx)
+                ev2.hooks[f.qualname] = ev2.hooks['regions.core.core:PixelRegion.to_mask']
+                top = comp(operand, leaf('self.region2', True), 'and_', None, 'self')
+                out2 = ev2.run(f, [top], {'mode': Const('center'), 'subpixels': sp.Integer(1)})
+                t2 = ev2.gated_return(out2)
+                d2 = t2.fields.get('data') if isinstance(t2, Obj) else None
+                p1 = [p_ for p_ in _find_apps(d2, 'numpy.pad') if isinstance(p_.args[0], App) and p_.args[0].args
+                      and p_.args[0].args[0] is operand] if d2 is not None else []
+                if not p1:
+                    raise AnalysisError('C02.R5', construct, f'nested-operand probe not reducible: {show(t2, 200)}')
+                fill = sp.Integer(0)
+                for a_ in p1[0].args[2:]:
+                    if isinstance(a_, Tup) and len(a_.items) == 2 and isinstance(a_.items[0], Const) \
+                            and a_.items[0].v == 'constant_values':
+                        fill = a_.items[1]
+                if len(p1[0].args) > 3 and not isinstance(p1[0].args[3], Tup):
+                    fill = p1[0].args[3]
+                if not (is_num(fill) and fill.is_number):
+                    raise AnalysisError('C02.R5', construct, f'pad value of a nested compound operand not reducible: {show(fill, 200)}')
+                return int(fill)
+
+            ncases = 0
             for opname in ('or_', 'and_', 'xor'):
                 for i1 in (True, False):
                     for i2 in (True, False):
-                        _, ev2, boxes2 = _compound_setup(ctx)
-                        ev2.hooks[f.qualname] = ev2.hooks['regions.core.core:PixelRegion.to_mask']
-                        leaf = lambda tag, inc: Obj('CirclePixelRegion', {'meta': DictV([{'include': Const(inc)}])}, tag, circ)  # noqa: E731
-                        inner = Obj('CompoundPixelRegion', {'region1': leaf('P', i1), 'region2': leaf('Q', i2),
-                                                            'operator': ExtRef('operator.' + opname), 'meta': DictV([{}])},
-                                    'self.region1', ci)
-                        top = Obj('CompoundPixelRegion', {'region1': inner, 'region2': leaf('self.region2', True),
-                                                          'operator': ExtRef('operator.and_'), 'meta': DictV([{}])}, 'self', ci)
-                        out2 = ev2.run(f, [top], {'mode': Const('center'), 'subpixels': sp.Integer(1)})
-                        t2 = ev2.gated_return(out2)
-                        d2 = t2.fields.get('data') if isinstance(t2, Obj) else None
-                        p1 = [p_ for p_ in _find_apps(d2, 'numpy.pad') if isinstance(p_.args[0], App) and p_.args[0].args
-                              and p_.args[0].args[0] is inner] if d2 is not None else []
-                        if not p1:
-                            raise AnalysisError('C02.R5', construct, f'nested-operand probe not reducible: {show(t2, 200)}')
-                        fill = sp.Integer(0)
-                        for a_ in p1[0].args[2:]:
-                            if isinstance(a_, Tup) and len(a_.items) == 2 and isinstance(a_.items[0], Const) \
-                                    and a_.items[0].v == 'constant_values':
-                                fill = a_.items[1]
-                        if len(p1[0].args) > 3 and not isinstance(p1[0].args[3], Tup):
-                            fill = p1[0].args[3]
-                        want_fill = int(bool(getattr(_op, opname)(int(not i1), int(not i2))))
-                        if not (is_num(fill) and fill.is_number):
-                            raise AnalysisError('C02.R5', construct, f'pad value of a nested compound operand not reducible: {show(fill, 200)}')
-                        if int(fill) != want_fill:
-                            wrong.append((opname, i1, i2, int(fill), want_fill))
+                        ncases += 1
+                        inner = comp(leaf('P', i1), leaf('Q', i2), opname, None, 'self.region1')
+                        got_fill = pad_fill(inner)
+                        want_fill = outside(('comp', (('leaf',), i1), (('leaf',), i2), opname))
+                        if got_fill != want_fill:
+                            wrong.append((f'P {opname} Q with include flags {i1}, {i2}', got_fill, want_fill))
+            # one level deeper: the operand's own operand is a compound that may itself be excluded
+            for op1, i1, i2 in (('or_', False, True), ('and_', True, True), ('xor', False, False), ('xor', False, True)):
+                for op2 in ('or_', 'and_', 'xor'):
+                    for i3 in (True, False):
+                        ncases += 1
+                        inner = comp(leaf('P', i1), leaf('Q', i2), op1, i3, 'self.region1.region1')
+                        mid = comp(inner, leaf('R', True), op2, None, 'self.region1')
+                        got_fill = pad_fill(mid)
+                        want_fill = outside(('comp', (('comp', (('leaf',), i1), (('leaf',), i2), op1), i3), (('leaf',), True), op2))
+                        if got_fill != want_fill:
+                            wrong.append((f'(P {op1} Q [include {i1}, {i2}], itself include={i3}) {op2} R', got_fill, want_fill))
+            # any depth: the recursive function that computes the outside value, with the operands' own outside values
+            # given (v1, v2 in {0, 1}), must return operator(v1 xor excluded1, v2 xor excluded2) — induction step, 48 cases
+            mod_ = m.modules[f.module]
+            callees_ = {call_name(c) for c in calls_in(f.node)}
+            for g_ in list(mod_.functions.values()) + list(ci.methods.values()):
+                if g_.name not in callees_ and ('self.' + g_.name) not in callees_:
+                    continue
+                if not any((call_name(c) or '').split('.')[-1] == g_.name for c in calls_in(g_.node)):
+                    continue
+                for opname in ('or_', 'and_', 'xor'):
+                    for i1 in (True, False):
+                        for i2 in (True, False):
+                            for v1 in (0, 1):
+                                for v2 in (0, 1):
+                                    ncases += 1
+                                    P_, Q_ = leaf('P', i1), leaf('Q', i2)
+                                    node_ = comp(P_, Q_, opname, None, 'operand')
+                                    ev3 = evaluator(ctx)
+
+                                    def hook(e, a, k, _g=g_, _P=P_, _Q=Q_, _v1=v1, _v2=v2):
+                                        tgt = a[-1] if a else None
+                                        if tgt is _P:
+                                            return sp.Integer(_v1)
+                                        if tgt is _Q:
+                                            return sp.Integer(_v2)
+                                        return e.call(_g, a, k, 1)
+                                    ev3.hooks[g_.qualname] = hook
+                                    r_ = ev3.call(g_, [node_], {}, 1)
+                                    want_ = int(bool(getattr(_op, opname)(v1 ^ (0 if i1 else 1), v2 ^ (0 if i2 else 1))))
+                                    if not (is_num(r_) and r_.is_number):
+                                        raise AnalysisError('C02.R5', construct, f'{g_.name} not reducible on a compound with '
+                                                            f'given operand values: {show(r_, 160)}')
+                                    if int(r_) != want_:
+                                        wrong.append((f'P {opname} Q, include flags {i1}, {i2}, whose operands have the outside '
+                                                      f'values {v1}, {v2}', int(r_), want_))
             if wrong:
-                opname, i1, i2, got_fill, want_fill = wrong[0]
+                what, got_fill, want_fill = wrong[0]
                 ctx.bad(construct, 'nested-operand-padding',
-                        f'an operand that is itself a compound (P {opname} Q with include flags {i1}, {i2}) is padded with {got_fill} '
+                        f'an operand that is itself a compound ({what}) is padded with {got_fill} '
                         f'outside its own box, but it has membership {want_fill} there: the mask of C & (B | excluded A) is not the '
-                        f'sampled membership function ({len(wrong)} of 12 operator/include cases)', f.loc())
+                        f'sampled membership function ({len(wrong)} of {ncases} operator/include cases)', f.loc())
             else:
                 ctx.ok(construct, 'operands padded to the union box with their outside value, complemented when excluded; operator '
                        'applied; union box carried')
